@@ -219,7 +219,7 @@ def run(tier, selftest=False, only=None):
         with rep.guard("program", p):
             stats[replay_program(rep, p, "program")] += 1
     rep.traces = len(progs)
-    rep.extra["programs"] = stats
+    rep.extra["program_outcomes"] = stats
     rep.extra["steps"] = sum(len(p["steps"]) for p in progs)
     for p in progs[:3]:
         rep.sample(p)
